@@ -1,7 +1,19 @@
 /-
-C01 — multipart decoding is exact and chunking-independent (property theorems).
+C01 — multipart decoding is exact and independent of how the body is chunked.
+
+Property theorems only.  The specification vocabulary (`Part`, `encode`,
+`PartOK`, `FormOK`, `itemOf`, `expected`) is defined in
+`Lemmas/MultipartForm.lean` / `Lemmas/MultipartHelper.lean`; the model of the
+decoder and of the helpers is `Model/Multipart.lean`.
+
+Quantifiers: every boundary without CR/LF, every preamble that does not contain
+`--boundary`, every list of parts (any number) whose contents are arbitrary
+bytes free of `--boundary` (CR, LF, dashes and partial boundary prefixes
+included) and whose header blocks are well-formed, every epilogue, every limit
+configuration, and EVERY list of chunks whose concatenation is the encoded body
+(one-byte chunks and empty chunks included).
 -/
-import BaizeVerif.Model.Multipart
+import BaizeVerif.Lemmas.MultipartHelper
 
 namespace Baize.Multipart
 
@@ -15,5 +27,173 @@ theorem source_pinned :
     Gen.Multipart.boundaryReTemplate =
       "%s--%s(--[^\\S\\n\\r]*%s?|[^\\S\\n\\r]*%s) % (LINE_BREAK, re.escape(boundary), LINE_BREAK, LINE_BREAK)" := by
   decide
+
+/-- the initial state of the helper satisfies the invariant for the whole body -/
+private theorem inv_init (b pre epi : Bytes) (parts : List Part) (cfg : Cfg) (cs : Charset) :
+    Inv b pre epi parts cfg cs [] .pre {} (encode b pre parts epi) := by
+  refine ⟨rfl, rfl, rfl, Nat.zero_le _, ?_, rfl, rfl, by simp, rfl, rfl, rfl⟩
+  unfold memExceeded
+  split <;> simp
+
+/-- **C01.1 — exact for every chunking.**  Whatever way the encoded body is cut
+into chunks, the stream helper (the same function models `parse_stream` and
+`parse_async_stream`) returns exactly the encoded parts in order — or 413 exactly
+when a limit is exceeded (see C15). -/
+theorem parseStream_exact (b pre epi : Bytes) (parts : List Part) (cfg : Cfg) (cs : Charset)
+    (hform : FormOK b pre cs parts) (chunks : List Bytes)
+    (h : chunks.flatten = encode b pre parts epi) :
+    parseStream b cfg cs chunks = expected cfg cs parts := by
+  unfold parseStream
+  apply feedAll_spec hform chunks {} [] .pre
+  · rw [h]; exact inv_init b pre epi parts cfg cs
+  · intro hc
+    exfalso
+    rw [hc] at h
+    have := congrArg List.length h
+    simp [encode, marker] at this
+
+/-- **C01.2 — chunking independence.**  Any two ways of splitting the same
+encoded body give the same result. -/
+theorem chunking_independent (b pre epi : Bytes) (parts : List Part) (cfg : Cfg) (cs : Charset)
+    (hform : FormOK b pre cs parts) (chunks₁ chunks₂ : List Bytes)
+    (h₁ : chunks₁.flatten = encode b pre parts epi) (h₂ : chunks₂.flatten = chunks₁.flatten) :
+    parseStream b cfg cs chunks₁ = parseStream b cfg cs chunks₂ := by
+  rw [parseStream_exact b pre epi parts cfg cs hform chunks₁ h₁,
+    parseStream_exact b pre epi parts cfg cs hform chunks₂ (h₂.trans h₁)]
+
+/-- **C01.3 — the decoded items.**  Within the limits the result is the list of
+the parts' items: for a field its name and the decoded text of its content, for a
+file its field name, filename, part headers and byte-for-byte content. -/
+theorem parseStream_items (b pre epi : Bytes) (parts : List Part) (cfg : Cfg) (cs : Charset)
+    (hform : FormOK b pre cs parts) (chunks : List Bytes)
+    (h : chunks.flatten = encode b pre parts epi)
+    (hparts : parts.length ≤ cfg.maxParts) (hmem : memExceeded cfg (fieldBytes parts) = false) :
+    parseStream b cfg cs chunks = .ok (parts.filterMap (itemOf cs)) := by
+  rw [parseStream_exact b pre epi parts cfg cs hform chunks h]
+  unfold expected
+  have : decide (parts.length > cfg.maxParts) = false := by simp; omega
+  simp [this, hmem]
+
+/-- **C01.4 — the form accessors.**  `Request.form` on WSGI reads the chunks as
+they come; on ASGI empty message bodies are skipped and one empty chunk is
+appended.  Both see the same concatenation, hence the same result as the helper. -/
+theorem formAccessor_exact (asgi : Bool) (contentType : List Nat) (b pre epi : Bytes) (parts : List Part)
+    (cs : Charset) (opts : List (List Nat × List Nat))
+    (hct : parseHeaderValue contentType = (multipartType, opts))
+    (hb : lookup [98, 111, 117, 110, 100, 97, 114, 121] opts = some b)
+    (hcs : (match lookup [99, 104, 97, 114, 115, 101, 116] opts with
+            | some c => normCharset c | none => .utf8) = cs)
+    (hform : FormOK b pre cs parts) (chunks : List Bytes)
+    (h : chunks.flatten = encode b pre parts epi) :
+    formAccessor asgi contentType chunks = some (expected {} cs parts) := by
+  subst hcs
+  unfold formAccessor
+  simp only [hct, hb, ne_eq, not_true_eq_false, if_false]
+  congr 1
+  apply parseStream_exact b pre epi parts {} _ hform
+  cases asgi with
+  | false => simpa using h
+  | true =>
+    simp only [if_true]
+    rw [← h]
+    have : ∀ l : List Bytes, (l.filter fun c => !c.isEmpty).flatten = l.flatten := by
+      intro l
+      induction l with
+      | nil => rfl
+      | cons c l ih =>
+        cases c with
+        | nil => simpa using ih
+        | cons x c => simp [ih]
+    simp [this]
+
+/-! ### Non-vacuity: a concrete form meets the hypotheses, and the theorem's
+conclusion is what the model computes on a nasty chunking -/
+
+private def bd : Bytes := [98, 100]                                   -- "bd"
+
+/-- `Content-Disposition: form-data; name="a"` -/
+private def hdrA : Bytes :=
+  [67,111,110,116,101,110,116,45,68,105,115,112,111,115,105,116,105,111,110,58,32,102,111,114,109,45,100,97,116,97,
+   59,32,110,97,109,101,61,34,97,34]
+
+/-- `Content-Disposition: form-data; name="f"; filename="x"` CRLF `Content-Type: t/p` -/
+private def hdrF : Bytes :=
+  [67,111,110,116,101,110,116,45,68,105,115,112,111,115,105,116,105,111,110,58,32,102,111,114,109,45,100,97,116,97,
+   59,32,110,97,109,101,61,34,102,34,59,32,102,105,108,101,110,97,109,101,61,34,120,34,13,10,
+   67,111,110,116,101,110,116,45,84,121,112,101,58,32,116,47,112]
+
+private def cdKey : List Nat := [99,111,110,116,101,110,116,45,100,105,115,112,111,115,105,116,105,111,110]
+
+/-- what the two header blocks denote -/
+private def evA : Ev :=
+  .field (some [97]) [(cdKey, [102,111,114,109,45,100,97,116,97,59,32,110,97,109,101,61,34,97,34])]
+
+private def evF : Ev :=
+  .file (some [102]) [120]
+    [(cdKey, [102,111,114,109,45,100,97,116,97,59,32,110,97,109,101,61,34,102,34,59,32,102,105,108,101,110,97,109,101,61,34,120,34]),
+     ([99,111,110,116,101,110,116,45,116,121,112,101], [116,47,112])]
+
+/-- a field whose text is `CR LF - - b` (a partial delimiter) and a file whose
+content is `LF CR - CR LF -` -/
+private def exParts : List Part :=
+  [ { hdr := hdrA, content := [13, 10, 45, 45, 98], ev := evA },
+    { hdr := hdrF, content := [10, 13, 45, 13, 10, 45], ev := evF } ]
+
+private theorem free_of_findSub {mk c : Bytes} (h : findSub mk c = none) : Free mk c := by
+  intro hi
+  have := findSub_isSome_of_infix hi
+  rw [h] at this
+  cases this
+
+private theorem hdrOK_of_check (H : Bytes)
+    (h1 : ∃ x r, H = x :: r ∧ isLB x = false ∧ x ≠ 32 ∧ x ≠ 9)
+    (h2 : ∃ r x, H = r ++ [x] ∧ isLB x = false)
+    (h3 : (List.range (H.length + 1)).all (fun i => blankAt (H.drop i) = 0) = true) : HdrOK H := by
+  refine ⟨h1, h2, ?_⟩
+  intro A1 A2 hA
+  have : A2 = H.drop A1.length := by rw [hA]; simp
+  rw [this]
+  rw [List.all_eq_true] at h3
+  have := h3 A1.length (by rw [List.mem_range, hA]; simp; omega)
+  simpa using this
+
+private theorem exForm : FormOK bd [112] .latin1 exParts := by
+  refine ⟨by unfold NoLB; decide, free_of_findSub (by decide), ?_⟩
+  intro p hp
+  simp only [exParts, List.mem_cons, List.mem_nil_iff, or_false] at hp
+  rcases hp with rfl | rfl
+  · exact ⟨hdrOK_of_check _ ⟨67, _, rfl, by decide, by decide, by decide⟩
+        ⟨hdrA.dropLast, 34, by decide, by decide⟩ (by decide),
+      free_of_findSub (by decide), by decide +kernel, trivial⟩
+  · exact ⟨hdrOK_of_check _ ⟨67, _, rfl, by decide, by decide, by decide⟩
+        ⟨hdrF.dropLast, 112, by decide, by decide⟩ (by decide),
+      free_of_findSub (by decide), by decide +kernel, trivial⟩
+
+example : expected {} .latin1 exParts =
+    .ok [ .field (some [97]) [13, 10, 45, 45, 98],
+          .file (some [102]) [120]
+            [(cdKey, [102,111,114,109,45,100,97,116,97,59,32,110,97,109,101,61,34,102,34,59,32,102,105,108,101,110,97,109,101,61,34,120,34]),
+             ([99,111,110,116,101,110,116,45,116,121,112,101], [116,47,112])]
+            [10, 13, 45, 13, 10, 45] ] := by
+  decide +kernel
+
+private theorem flatten_map_singleton (l : Bytes) : (l.map fun x => [x]).flatten = l := by
+  induction l with
+  | nil => rfl
+  | cons x l ih => simp [ih]
+
+/-- the theorem applies to this form with preamble "p", epilogue CRLF, and one-byte chunks -/
+example : parseStream bd {} .latin1 ((encode bd [112] exParts [13, 10]).map fun x => [x]) =
+    expected {} .latin1 exParts :=
+  parseStream_exact bd [112] [13, 10] exParts {} .latin1 exForm _ (flatten_map_singleton _)
+
+/-- … and the model computes the same on that chunking (a direct evaluation, as a cross-check) -/
+example : parseStream bd {} .latin1 ((encode bd [112] exParts [13, 10]).map fun x => [x]) =
+    .ok [ .field (some [97]) [13, 10, 45, 45, 98],
+          .file (some [102]) [120]
+            [(cdKey, [102,111,114,109,45,100,97,116,97,59,32,110,97,109,101,61,34,102,34,59,32,102,105,108,101,110,97,109,101,61,34,120,34]),
+             ([99,111,110,116,101,110,116,45,116,121,112,101], [116,47,112])]
+            [10, 13, 45, 13, 10, 45] ] := by
+  decide +kernel
 
 end Baize.Multipart
